@@ -16,7 +16,10 @@ Rec == ndJsonDeserialize(IOEnv.TRACE)
 VARIABLE l
 Count(s, x) == Cardinality({i \in DOMAIN s : s[i] = x})
 SeqRange(s) == {s[i] : i \in DOMAIN s}
-BagEq(a, b) == Len(a) = Len(b) /\ \A x \in SeqRange(a) \cup SeqRange(b) : Count(a, x) = Count(b, x)
+BagEq(a, b) == /\ Len(a) = Len(b)
+               /\ LET ra == SeqRange(a) rb == SeqRange(b) IN
+                  IF Cardinality(ra) = Len(a) THEN ra = rb           \* all rows distinct: bag equality is set equality
+                  ELSE \A x \in ra \cup rb : Count(a, x) = Count(b, x)
 (* filter: vals[i] is the predicate column's value of logical row i as an order-preserving rank (<<>> = NULL),
    pred = [op, c]; SQL keeps a row only when the comparison is TRUE (a NULL never qualifies)          *)
 Rel(op, x, y) == CASE op = "eq" -> x = y [] op = "ne" -> x # y [] op = "lt" -> x < y [] op = "le" -> x <= y
